@@ -3,6 +3,7 @@ package gqlty
 import (
 	"fmt"
 	"sort"
+	"strings"
 
 	"github.com/samsarahq/thunder/graphql"
 	"verifharness/pkg/vh"
@@ -54,8 +55,12 @@ func Walk(roots ...graphql.Type) *SchemaDesc {
 			return false
 		}
 		seen[t] = true
-		if _, dup := d.Defs[name]; dup {
-			d.Clash = append(d.Clash, name)
+		if old, dup := d.Defs[name]; dup {
+			// the builder makes a fresh *Scalar / *Enum for every use: same name and same content is one type
+			same := old.Kind == def.Kind && (def.Kind == "scalar" || (def.Kind == "enum" && strings.Join(old.Values, ",") == strings.Join(def.Values, ",")))
+			if !same {
+				d.Clash = append(d.Clash, name)
+			}
 			return false
 		}
 		d.Defs[name] = def
